@@ -123,7 +123,8 @@ def run(ctx):
                 sched, fin = out
                 real_cases["cms"].append((real_items, sched, fin["cms"]))
                 real_cases["hll"].append((real_items, sched, fin["hll"]))
-                real_cases["hh"].append((real_items, sched, fin["hh"]))
+                if "hh" in fin:
+                    real_cases["hh"].append((real_items, sched, fin["hh"]))
         else:
             rep = {"suite": "real-dead-worker", "n_workers": spec["n_workers"], "die_on_kth": spec["die_on_kth"],
                    "items": spec["items"], "combo": spec["combo"], "cfg": cfg,
